@@ -150,8 +150,8 @@ PROPS = {
         "operands and expression values from get_jump_table_len(), data operands from add_*/parse_add_*, list counts from the child "
         "counter, jump-table entries from get_instruction_len() or a zero placeholder whose index is registered for patching, the "
         "patch itself from get_instruction_len() (D4, interprocedural origin analysis); every Definition has a handler (T1); and the loop appending a "
-        "root's end instructions has no early exit, so the re-joining JumpTo / EndExpression is always considered (T11). That the "
-        "'already present' test compares the right instruction and root-stack exhaustion depend on program shape and are not decided.",
+        "root's end instructions has no early exit and skips an entry only when the identical (instruction, operand) pair is already "
+        "the last one, so the re-joining JumpTo / EndExpression is always emitted (T11). Root-stack exhaustion depends on program shape and is not decided.",
     },
     "C20": {
         "rules": ["D4", "W1"],
@@ -182,12 +182,13 @@ PROPS = {
         "are not decided.",
     },
     "C10": {
-        "rules": ["T4", "T9", "A1"],
-        "claim": "Decides three clauses of C10: (T4) the seven testing instructions (?> !> && || ^^ !! ??) classify all 21 value types "
+        "rules": ["T4", "T9", "A1", "T11"],
+        "claim": "Decides four clauses of C10: (T4) the seven testing instructions (?> !> && || ^^ !! ??) classify all 21 value types "
         "identically with exactly {False, Unit} false - computed from the behaviour of their MIR under each type fact (21 contexts each, "
         "441 for ^^), not from the spelling of their arms; (A1) && / || push a boolean only on the edge that does not jump; (T9) the "
         "right operand of && / || and the arm of ?> / !> are compiled out of line behind the jump, re-joined through a jump-table "
-        "entry, and the && / || right root ends in Tis. Order and at-most-one-arm in else-chains are not decided.",
+        "entry, and the && / || right root ends in Tis; (T11) the loop closing a root walks the whole end list, so the JumpTo that "
+        "re-joins after the out-of-line operand / arm is always emitted. Order and at-most-one-arm in else-chains are not decided.",
     },
     "C17": {
         "rules": ["A4", "A1", "T2", "T10"],
